@@ -28,6 +28,7 @@ type confineScn struct {
 	Escapes bool   `json:"escapes"`
 	Recv    string `json:"recv"`
 	Delete  bool   `json:"delete"`
+	Batch   bool   `json:"batch"`  // the reference sender answers requests only after the generator has finished its pass (deferred commits)
 	Push    bool   `json:"push"`   // the hostile sender also transmits file data for every listed entry WITHOUT being asked (receiver.go accepts any index)
 	Sub     string `json:"sub"`    // daemon: destination argument (after module-name stripping); "" = module root
 	Benign  bool   `json:"benign"` // the list is harmless (sub-argument scenarios)
@@ -223,7 +224,13 @@ func confineHandler(w *workerCtx, line []byte) (any, error) {
 				name = outside + "/" + strings.TrimPrefix(name, "/ABS/")
 			}
 			e := wirekit.Entry{Name: name, Mtime: 2_000_000, UID: 4242, GID: 4343}
+			if strings.HasPrefix(t, "lnkto:") { // a symlink with a chosen target ("OUTSIDE" = the outside directory, absolute)
+				e.Mode, e.Link = wirekit.SIFLNK|0o777, strings.ReplaceAll(strings.TrimPrefix(t, "lnkto:"), "OUTSIDE", outside)
+				return e
+			}
 			switch t {
+			case "rodir": // a directory without owner write permission: the receiver restores its mode in a pass AFTER the transfer
+				e.Mode, e.Size = wirekit.SIFDIR|0o555, 4096
 			case "reg":
 				e.Mode, e.Size = wirekit.SIFREG|0o666, int64(len(payload))
 			case "dir":
@@ -308,7 +315,7 @@ func confineHandler(w *workerCtx, line []byte) (any, error) {
 				p.Out.Bytes(seg)
 			}
 		}
-		rs := &wirekit.RefSender{In: p.In, Out: p.Out, Seed: p.Seed}
+		rs := &wirekit.RefSender{In: p.In, Out: p.Out, Seed: p.Seed, Batch: s.Batch}
 		rs.Answer = func(req *wirekit.Request) (*wirekit.Answer, error) {
 			obs.Reqs++
 			if req.Head.Count > 0 {
